@@ -50,6 +50,9 @@ pub struct GraphOpts {
     pub mega: bool,
     /// plant `lnk -> sub` (a symlinked directory) and spell some paths through it
     pub symlinks: bool,
+    /// commands above a dependency line may read the dependency's output (never where that
+    /// path can be a link to /dev/full: the first pass would read it for ever)
+    pub read_above: bool,
 }
 
 impl Default for GraphOpts {
@@ -69,6 +72,7 @@ impl Default for GraphOpts {
             wide: false,
             mega: false,
             symlinks: false,
+            read_above: true,
         }
     }
 }
@@ -352,7 +356,7 @@ pub fn gen_graph_project(rng: &mut Rng, o: &GraphOpts, n: usize, edges: &BTreeSe
         for _ in 0..pre {
             gen_free_element(rng, o, &mut b, &dir, i, &plains, &mut temp_ctr, deps.is_empty(), &outs[i], &outs);
         }
-        if !deps.is_empty() && rng.chance(1, 5) {
+        if o.read_above && !deps.is_empty() && rng.chance(1, 5) {
             // a command above the dependency line that reads the dependency's output: the first
             // pass may see anything, the text that counts is what it prints in the final pass
             let x = rel_path(&dir, &outs[deps[0]]);
